@@ -1096,6 +1096,10 @@ func (r *runner) checkpoint() {
 		return
 	}
 	r.count("checkpoints", 1)
+	if r.dirty {
+		r.violateU("no-full-resync-at-checkpoint", nil, "QueueResync + a successful Apply did not dump the routing table")
+		return
+	}
 	r.judge("checkpoint", true)
 }
 
